@@ -387,6 +387,12 @@ structure C13St where
   liveListeners : List (Nat × Nat × SockAddr) := []   -- slot, host, addr
   liveStreams : List Nat := []
   liveConnecting : List Nat := []
+  /-- pending connects: slot ↦ (the listener slots `find_listener` would pick for the destination at
+      connect time — exact address first, else the wildcard of the family —, drop events and egress
+      rounds so far) -/
+  connects : List (Nat × List Nat × Nat × Nat) := []
+  drops : Nat := 0
+  egresses : Nat := 0
   /-- egress rounds since the last op that created or dropped a handle or wrote data -/
   roundsIdle : Nat := 0
   quiet : Nat := 0
@@ -468,12 +474,29 @@ def c13Step (cfg : Cfg) (s : C13St) (e : Event) : C13St :=
     touch { s with liveListeners := s.liveListeners.filter (·.1 != lslot),
                    completed := s.completed.filter fun c => !covers c.1,
                    halfOpen := s.halfOpen.filter fun c => !covers c.1 }
-  | .connect _ cslot sslot _, [.pending] => touch { s with liveConnecting := s.liveConnecting ++ [cslot], liveStreams := s.liveStreams.filter (· != sslot) }
+  | .connect _ cslot sslot peer, [.pending] =>
+    let onHost := s.liveListeners.filter fun l => hostOfIpS peer.ip == some l.2.1 && l.2.2.port == peer.port
+    let exact := onHost.filter fun l => l.2.2.ip == peer.ip
+    let wild := onHost.filter fun l => l.2.2.ip.isUnspecified && l.2.2.ip.isV6 == peer.ip.isV6
+    let picked := (if exact.isEmpty then wild else exact).map (·.1)
+    touch { s with liveConnecting := s.liveConnecting ++ [cslot], liveStreams := s.liveStreams.filter (· != sslot),
+                   connects := (s.connects.filter (·.1 != cslot)) ++ [(cslot, picked, s.drops, s.egresses)] }
   | .connect _ _ sslot _, [.okConn _ _] => touch { s with liveStreams := s.liveStreams ++ [sslot] }
   | .connect _ _ _ _, _ => touch s
   | .cpoll cslot sslot, [.okConn _ _] =>
     touch { s with liveConnecting := s.liveConnecting.filter (· != cslot), liveStreams := s.liveStreams ++ [sslot] }
-  | .cpoll cslot _, [.err _] => touch { s with liveConnecting := s.liveConnecting.filter (· != cslot) }
+  | .cpoll cslot _, .err e :: _ =>
+    -- Refusal rule: a connect whose destination was covered by a listener that is still live, with no
+    -- packet lost since and no timer of the handshake expired, must not be refused (only an RST refuses,
+    -- and a listener with room answers SYN-ACK, one without room answers nothing).
+    let s0 := match s.connects.lookup cslot with
+      | some (picked, d0, e0) =>
+        if e == Err.refused && picked.any (fun l => s.liveListeners.any (·.1 == l)) && s.drops == d0 &&
+            decide (s.egresses - e0 < cfg.retxThreshold * (cfg.retxMax + 1)) then
+          s.flag "connect refused although the listener that covered its destination since before the connect is still live and nothing was lost"
+        else s
+      | none => s
+    touch { s0 with liveConnecting := s0.liveConnecting.filter (· != cslot), connects := s0.connects.filter (·.1 != cslot) }
   | .ccancel cslot, _ => touch { s with liveConnecting := s.liveConnecting.filter (· != cslot) }
   | .accept _ sslot, [.okConn l p] =>
     let s1 := touch { s with liveStreams := s.liveStreams ++ [sslot], accepts := s.accepts ++ [(l, p)] }
@@ -499,7 +522,8 @@ def c13Step (cfg : Cfg) (s : C13St) (e : Event) : C13St :=
           else s
       | _ => s) s
     let silent := obs == [.nothing]
-    { s1 with roundsIdle := s1.roundsIdle + 1, quiet := if silent && s1.wire.isEmpty then s1.quiet + 1 else 0 }
+    { s1 with roundsIdle := s1.roundsIdle + 1, quiet := if silent && s1.wire.isEmpty then s1.quiet + 1 else 0,
+              egresses := s1.egresses + 1 }
   | .deliver id, _ =>
     match s.wire.lookup id with
     | none => s
@@ -513,7 +537,7 @@ def c13Step (cfg : Cfg) (s : C13St) (e : Event) : C13St :=
     | some p =>
       if p.seg.flags.syn && !p.seg.flags.ack then c13Syn { s with quiet := 0 } p
       else c13Completion { s with quiet := 0 } p
-  | .drop id, _ => { s with wire := s.wire.filter (·.1 != id) }
+  | .drop id, _ => { s with wire := s.wire.filter (·.1 != id), drops := s.drops + 1 }
   | .stat, obs =>
     let s0 := if backlogOk obs then s else s.flag "more unaccepted connections than the listener's backlog"
     let s1 := if obs.all danglingZero then s0 else s0.flag "index entry points at a socket that no longer exists"
